@@ -234,7 +234,7 @@ func checkRun(rr *runResult, drv *vh.Driver) []finding {
 		if modelAlive {
 			got := ms.ask(w.endLine(b))
 			if strings.HasPrefix(got, "ok ") {
-				if f := strings.Fields(got); len(f) == 3 {
+				if f := strings.Fields(got); len(f) >= 3 {
 					modelLost, modelLostDel = bigOf(f[1]), bigOf(f[2])
 					modelKnows = true
 				}
